@@ -261,12 +261,31 @@ def _check(spec):
             if root.is_unlabeled(i) and "class" in form.split(" "):
                 raise Violation("unlabeled-sample-answered-with-a-class-label", f"index {i} has no label (-1) but the request '{form}' returned "
                                                                                 f"{[round(float(v), 3) for v in (got[form.split(' ').index('class')] if isinstance(got, tuple) else got).flatten().tolist()][:10]}")
-            items = dict(zip(form.split(" "), got if isinstance(got, tuple) else (got,)))
-            if "index" in items and items["index"] != i:
-                raise Violation("index-item-changed", "")
-            if "other" in items and items["other"] != ("other", i):
-                raise Violation("other-item-changed", "")
-            x, y = items.get("x"), items.get("class")
+            names = form.split(" ")
+            vals = got if isinstance(got, tuple) else (got,)
+            if len(vals) != len(names) or any(v is None for v in vals):
+                raise Violation("request-form-slot-missing", f"index {i}: the request '{form}' returned {len(vals)} slots, "
+                                                             f"empty ones at {[k for k, v in enumerate(vals) if v is None]}")
+            for nm, v in zip(names, vals):
+                if nm == "index" and v != i:
+                    raise Violation("index-item-changed", "")
+                if nm == "other" and v != ("other", i):
+                    raise Violation("other-item-changed", "")
+            xs = [v for nm, v in zip(names, vals) if nm == "x"]
+            ys = [v for nm, v in zip(names, vals) if nm == "class"]
+            # an item that is requested more than once: the first image and the first label are judged as the joint request, every further
+            # copy on its own (a valid label vector / an image of the sample's shape) and - with a seed - as equal to the first
+            for extra_y in ys[1:]:
+                decode(root, i, None, extra_y, spec["unify"])
+            for extra_x in xs[1:]:
+                if tuple(extra_x.shape) != tuple(root.getitem_x(i).shape):
+                    raise Violation("output-shape-differs-from-sample-shape", "")
+            if spec["seed"] is not None:
+                for lst, nm in ((xs, "x"), (ys, "class")):
+                    for v in lst[1:]:
+                        if not torch.equal(lst[0], v):
+                            raise Violation("request-forms-describe-different-draws", f"index {i}: two '{nm}' items of '{form}' differ")
+            x, y = (xs[0] if xs else None), (ys[0] if ys else None)
             if y is not None:
                 kind, j, w = decode(root, i, x, y, spec["unify"])
                 if kind == "mixed" and j != i:
@@ -327,6 +346,9 @@ def check_cutmix_refused(spec):
 
 FORMS = ["x class", "class x", "x", "class", "index x class", "class index x", "x index class", "class x index"]
 
+# any sequence of the items a mode string may name, repeats included ("x class index", "x class x class", "index x x class"; a fused request refuses items the top wrapper does not implement itself)
+form_s = st.lists(st.sampled_from(["x", "class", "x", "class", "index"]), min_size=1, max_size=5).map(" ".join)
+
 
 @st.composite
 def spec_s(draw, big=False):
@@ -343,7 +365,7 @@ def spec_s(draw, big=False):
             "cutmix_p": draw(st.sampled_from([None, None, 0.5, 0.25])), "reassign_unify": draw(st.booleans()),
             "unlabeled": draw(st.sampled_from([0, 0, 3, 4])),
             "idx": draw(st.lists(st.integers(0, 100), min_size=1, max_size=6)),
-            "forms": draw(st.lists(st.sampled_from(FORMS), min_size=1, max_size=5, unique=True))}
+            "forms": draw(st.lists(st.one_of(st.sampled_from(FORMS), form_s), min_size=1, max_size=5, unique=True))}
 
 
 FACETS = [
